@@ -24,6 +24,34 @@ CLAIMED = {
              "xor is an uninterpreted symbol in the VCs (table checked exhaustively, involution lemma by bit-vectors).",
         technique="contract-based deductive verification: ast->SMT VC generation over the real source, z3 (cvc5 fallback)",
         design='DESIGN.md 5 C03'),
+
+    'C04': dict(
+        text="Deductive: FrameParser.parse (one iteration of its frame loop, all first-two-byte pairs and extended lengths symbolic) "
+             "raises ProtocolError iff the header is not acceptable from a server per RFC 6455 5.2/5.5 + RFC 7692 6.1 (spec/rfc6455.py) and "
+             "hands on only acceptable frames; WebsocketStream.feed keeps the 5.4 continuation discipline as a loop invariant; "
+             "Close.from_payload / WebSocket._on_close reject 1-byte payloads, invalid UTF-8 and reserved codes (the real set is checked "
+             "against the RFC 7.4 sandwich over all 65 536 codes); WebSocket.feed yields exactly one ProtocolError, then only raises, "
+             "writing at most one Close; run() turns that into a non-graceful Disconnected with the socket released. All by z3 on the real source.",
+        note=TRUST + " Composition of Parser.feed with parse() (coroutine protocol) is the generator meta-rule of DESIGN 2.2/4E: both sides are verified against the same receives-clause.",
+        technique="contract-based deductive verification: ast->SMT VC generation over the real source, z3 (cvc5 fallback)",
+        design='DESIGN.md 5 C04'),
+    'C05': dict(
+        text="Deductive + exhaustive ground lemma: the real DFA table is shown bisimilar to the RFC 3629 / Unicode Table 3-7 automaton "
+             "(9 reachable states x 256 bytes, by enumeration - the property's own quantifier); Utf8Validator.validate is proved to run that "
+             "table over each chunk from the state left by the previous chunk (loop invariant, first rejecting byte index); _ReadUtf8.validate "
+             "raises iff it rejects; FrameParser.parse keeps '_is_text <=> a text message is open' and routes exactly the payloads of TEXT frames "
+             "and text continuations through the validator (not under compression); Text/Close.from_payload deliver iff strictly decodable.",
+        note=TRUST + " bytes.decode('utf-8') is assumed to succeed iff the input is well-formed per RFC 3629 (definition of the uninterpreted wf_utf8 through the verified automaton); REJECT-absorption along a run is lifted from the one-step ground fact by induction (meta-lemma).",
+        technique="contract-based deductive verification (loop invariants over an uninterpreted DFA run) + exhaustive table lemma",
+        design='DESIGN.md 5 C05'),
+    'C13': dict(
+        text="Deductive: at EVERY yield of WebsocketSession.run (and of WebSocket.feed, _regular, _on_close) the executor explores the "
+             "GeneratorExit edge - handlers, finally blocks and the close edges of the nested generators the frame still references - and "
+             "discharges 'session holds no socket and the selector is closed' afterwards; WebSocket.__exit__/on_disconnect/_close_socket carry "
+             "the with-block and cleanup paths. No bound on the event index: the obligation is per yield site.",
+        note=TRUST + " Assumes CPython finalises a generator as soon as the consumer's loop is left (reference counting); a socket whose shutdown() raises is released by dropping the last reference.",
+        technique="contract-based deductive verification: exceptional (GeneratorExit) postconditions at every yield point",
+        design='DESIGN.md 5 C13'),
 }
 
 NA_REASON = "check under construction in this session; not yet claimed"
